@@ -342,8 +342,15 @@ def r4_validator_state(ctx) -> None:
                         n += 1
                         loc = f"{f.module.relpath}:{nd.lineno}"
                         owner = next((k for k in prog.mro(cq) if (k, b.attr) in VALIDATOR_STATE), None)
+                        st_node = prog.enclosing_stmt(nd)
+                        read_elsewhere = any(
+                            isinstance(x, ast.Attribute) and x.attr == b.attr and isinstance(x.ctx, ast.Load) and isinstance(x.value, ast.Name) and x.value.id == "self"
+                            and not any(x is y for y in ast.walk(st_node)) and not (isinstance(prog.parent(x), ast.Subscript) and isinstance(prog.parent(x).ctx, (ast.Store, ast.Del)))
+                            for k2 in prog.mro(cq) if k2 in prog.classes for m2 in prog.classes[k2].methods.values() for x in ast.walk(m2.node))
                         if owner:
                             r.ok("C19.R4", f.qual, f"self.{b.attr} — {VALIDATOR_STATE[(owner, b.attr)]}", loc)
+                        elif not read_elsewhere:
+                            r.ok("C19.R4", f.qual, f"self.{b.attr} is written but never read by the validator: no verdict can depend on it", loc)
                         else:
                             r.violation("C19.R4", f.qual, short(prog.enclosing_stmt(nd), 100), f"the validator object keeps self.{b.attr} across validate() calls: what it reports for a rule can depend on the rules validated before (e.g. a memoised issue list still naming the first rule that had the value)", loc)
     r.floor("C19.R4", 10)
